@@ -213,4 +213,7 @@ def run(tier, seed):
             ck.validated += 1
         else:
             ck.engine_errors.append('translator validation mismatch %s%r: exec events %r native %r' % (op, args, evs, n[1]))
+    # the host-facing memory API of src/teakra.cpp on the real object graph forwards to exactly these accessors
+    from checks import facade
+    facade.obligations(ck, 'mem')
     return ck.finish('every memory accessor decided against the byte-level formula over a symbolic 512 KiB memory')
